@@ -460,6 +460,6 @@ META = {
             "every small blank-node topology incl. cycles, shared and unreferenced nodes, well-formed, malformed and cyclic rdf:Lists. The parsed graph "
             "must be isomorphic to the original on independent term keys; serialisation must terminate.",
     "note": "Small scope (strings <=2/3 chars, graphs <=2/3 triples); RDF/XML expressibility filter on predicates; HexTuples modulo simple literal = "
-            "xsd:string; 5 s horizon for termination.",
+            "xsd:string; 5 s horizon for termination. JSON-LD also compacted (modulo simple literal = xsd:string); every history of <=4 (5) bind / add / write steps before a write.",
     "technique": "exhaustive enumeration of downward-closed term and topology families through serialize+parse with a brute-force isomorphism oracle",
 }
